@@ -268,7 +268,16 @@ func (m *runtimeContextManager) ReleaseMem(memAmount uint64) {
 		if memAmount <= m.usedResources.Memory {
 			m.usedResources.Memory -= memAmount
 		} else {
-			panic("Too much mem released")
+			// Part of this memory was required in an enclosing context (e.g. by
+			// a coroutine or a continuation created before the current context
+			// was entered and which ends inside it).  Give back what this
+			// context accounts for and release the remainder in the enclosing
+			// contexts, so that the total stays exact.
+			memAmount -= m.usedResources.Memory
+			m.usedResources.Memory = 0
+			if m.parent != nil {
+				m.parent.ReleaseMem(memAmount)
+			}
 		}
 	}
 }
